@@ -168,6 +168,8 @@ def gen_cases(rnd, n):
                 q['where'] = ['ne', ['a', 0], ['lit', 'x']]
         elif shape == 'except':
             q = {'items': [], 'except': sorted(set(rnd.randrange(3) for _ in range(rnd.randint(1, 2))))}
+            if rnd.random() < 0.4:
+                q['distinct'] = rnd.choice(['count', 'yes'])      # DISTINCT COUNT prepends a column to the EXCEPT header: every sink must see the final header
         elif shape == 'agg':
             q = {'items': [{'e': ['a', 0]}, {'agg': 'count', 'e': ['lit', qgen.num(1)]}, {'agg': 'any_value', 'e': ['a', 1]}], 'group': [['a', 0]]}
             if rnd.random() < 0.5:
